@@ -292,6 +292,28 @@ def check(run: Run) -> None:
                         raw_ok = True
             run.check(_is_filled(nt) or raw_ok, "C07.R2", g_, stmt_of(c), "candidate results carry the normalised call (the raw call only when no definition was found)", f"a candidate result carries {show(nt)[:60]} instead of the normalised call")
 
+    # the candidate loop ends at the first fully resolved candidate, whichever way that candidate was resolved: the test that
+    # leaves the loop is reached on every pass through the loop body
+    run.rule("C07.R8", "the loop over method candidates tests 'fully resolved -> stop' after every candidate (a less specific candidate must not overwrite a resolved one)")
+    n_brk = 0
+    for g_ in u_fns:
+        fg_ = ctx_u.analysis(g_)
+        for lp_ in [x for x in own_nodes(g_) if isinstance(x, ast.For)]:
+            brks = [b for b in ast.walk(lp_) if isinstance(b, ast.Break)]
+            if not brks or not any(isinstance(x, ast.Attribute) and x.attr == "full_type_resolution" for x in ast.walk(lp_)):
+                continue
+            for b in brks:
+                from ..model import parent as _par
+
+                gov = _par(b)
+                if not isinstance(gov, ast.If) or not any(isinstance(x, ast.Attribute) and x.attr == "full_type_resolution" for x in ast.walk(gov.test)):
+                    continue
+                n_brk += 1
+                first = next((st_ for st_ in lp_.body if fg_.cfg.has_node(st_)), None)
+                every_pass = first is not None and (_par(gov) is lp_ or fg_.cfg.postdominates(fg_.cfg.node_of(gov), fg_.cfg.node_of(first)))
+                run.check(every_pass, "C07.R8", g_, gov, "the stop test is made on every pass through the candidate loop", "the test that ends the candidate loop once a candidate is fully resolved is only reached on some paths through the loop body (e.g. only after call-back following): a candidate resolved from its annotations alone does not end the loop, and the next, less specific candidate (the collection class's own Count / First) normalises the call instead", "if len(return_results) > 0 and return_results[-1].full_type_resolution: break  # at loop-body level", key="candidate loop does not stop at a resolved candidate")
+    run.floor("C07.R8", n_brk, 1, "stop tests in the candidate loop")
+
     pf = m.find_func("process_function_call", in_module=mod)
     fsites = [c for c in calls_in(pf) if isinstance(c.func, ast.Name) and c.func.id == "_fill_in_default_arguments"]
     run.check(len(fsites) == 1 and ast.unparse(fsites[0].args[0]).endswith(".function"), "C07.R2", pf, pf.node, "registered functions are normalised against their declared signature", "process_function_call no longer normalises against func_info.function")
